@@ -19,7 +19,7 @@ pub static DEF: PropDef = PropDef {
   stack_mb: 64,
   case_cpu_s: 30.0,
   crash_is_event: false,
-  rule: "Per case a schema over the shared feature set and up to 8 JSON-model values are generated; every value is validated as JSON text and as CBOR. Invariants on each result: Err(Validation(list)) has a non-empty list; every JSON error location is \"\" or a slash path for which some segmentation into existing object keys / array indices of the validated document exists. Determinism: the full result (verdict + ordered list of (location, reason)) of each call is compared between (a) two sequential repetitions, (b) the call repeated after 40 unrelated validation calls on other schemas and documents, (c) the same calls made concurrently from 8 threads released together by a barrier (each thread runs all calls of the case three times; per-call begin/end times are recorded and the number of overlapping call pairs is reported). Error kinds: a malformed schema (single-edit mutants that the parser rejects), a malformed document (truncated / corrupted JSON text, truncated CBOR) and a well-formed non-conforming document must come back as three different error kinds. Non-trivial = a rejecting call with >= 1 error compared across all three repetition modes; distinct by (schema, document, validator).",
+  rule: "Per case a schema over the shared feature set and up to 8 JSON-model values are generated; every value is validated as JSON text and as CBOR. Invariants on each result: Err(Validation(list)) has a non-empty list; every JSON error location is \"\" or a slash path for which some segmentation into existing object keys / array indices of the validated document exists. Determinism: the full result (verdict + ordered list of (location, reason)) of each call is compared between (a) two sequential repetitions, (b) the call repeated after 40 unrelated validation calls on other schemas and documents, (c) the same calls made concurrently from 8 threads released together by a barrier (each thread runs all calls of the case three times; per-call begin/end times are recorded and the number of overlapping call pairs is reported). (d) History independence: on every second case 24 sibling calls (schemas sharing their controller texts over .regexp/.iregexp/.pcre or .lt/.le/.gt/.ge/.eq/.ne/.size/.bits and differing in the operator) are each made alone on a brand-new thread, then all in order on one new thread and in reverse order on another; the three results of each call must be equal. Error kinds: a malformed schema (single-edit mutants that the parser rejects), a malformed document (truncated / corrupted JSON text, truncated CBOR) and a well-formed non-conforming document must come back as three different error kinds. Non-trivial = a rejecting call with >= 1 error compared across all three repetition modes; distinct by (schema, document, validator).",
   assumptions: &[
     "thread overlap is measured with a monotonic clock; a case whose threads did not overlap is counted as not-overlapped (the run as a whole needs overlapping pairs)",
     "the thorough tier additionally runs the first 640 cases (all repetition modes, 8 concurrent threads per case) in a ThreadSanitizer build of the harness with an instrumented standard library; a report is a violation, a failed sanitizer build is inconclusive; the quick tier does not",
@@ -264,6 +264,69 @@ fn run(ctx: &mut Ctx, idx: u64) {
       }
     }
     ctx.sample("concurrent", 1, || json!({"schema": *st, "calls": calls.len(), "threads": nthreads, "overlapping_call_pairs": overlaps}));
+  }
+  // (d) history independence on sibling calls: schemas that share their controller / literal texts
+  // and differ in one operator are the hostile history for any memoisation keyed on too little.
+  // Each call is made alone on a brand-new thread (empty thread-local state), then all calls are
+  // made in order on one new thread and in reverse order on another; the three results of every
+  // call must be equal.
+  if idx % 2 == 1 {
+    const PATS: &[&str] = &["[0-9]{3}", "a+", "b", "x|y", "[a-c]x", "é", "(ab)*", "."];
+    const TOPS: &[&str] = &[".regexp", ".iregexp", ".pcre"];
+    const TDOCS: &[&str] = &["abc123def", "123", "aaa", "b", "cabx", "xy", "é", "", "ab", "B", "a\nb"];
+    const NOPS: &[&str] = &[".lt", ".le", ".gt", ".ge", ".eq", ".ne", ".size", ".bits"];
+    const NUMS: &[&str] = &["0", "1", "2", "3", "255"];
+    let forms = |t: &str| -> Vec<String> { vec![format!("a = {}\n", t), format!("a = {{ k: {} }}\n", t), format!("a = [* {}]\n", t), format!("a = b / nil\nb = {}\n", t)] };
+    let textual = rng.chance(2, 3);
+    let mut hcalls: Vec<Call> = vec![];
+    let shared: Vec<&str> = (0..2).map(|_| if textual { rng.pick_str(PATS) } else { rng.pick_str(NUMS) }).collect();
+    let form = rng.usize(4);
+    for _ in 0..6 {
+      let arg = shared[rng.usize(2)];
+      let t = if textual { format!("tstr {} \"{}\"", rng.pick_str(TOPS), arg) } else { format!("{} {} {}", rng.pick_str(&["uint", "int", "bstr", "tstr"]), rng.pick_str(NOPS), arg) };
+      // mostly the same surrounding form, so that sibling schemas differ in the operator only
+      let f = if rng.chance(3, 4) { form } else { rng.usize(4) };
+      let sch = Arc::new(forms(&t)[f].clone());
+      for _ in 0..2 {
+        let leaf = if textual { DV::Text(rng.pick_str(TDOCS).to_string()) } else { DV::Int(*rng.pick(&[0i128, 1, 2, 3, 4, 255, 256, -1])) };
+        let v = match f {
+          1 => DV::Map(vec![(DV::Text("k".into()), leaf)]),
+          2 => DV::Array(vec![leaf.clone(), leaf]),
+          _ => leaf,
+        };
+        hcalls.push(Call { schema: sch.clone(), json: Some(Arc::new(v.to_json())), cbor: None });
+        let mut r = Rng::new(0);
+        hcalls.push(Call { schema: sch.clone(), json: None, cbor: Some(Arc::new(dv::encode(&v, &dv::CANON, &mut r))) });
+      }
+    }
+    let on_new_thread = |cs: Vec<Call>| -> Vec<String> {
+      std::thread::Builder::new()
+        .stack_size(32 << 20)
+        .spawn(move || cs.iter().map(|c| shape(&exec(c))).collect::<Vec<String>>())
+        .expect("spawn")
+        .join()
+        .unwrap_or_default()
+    };
+    let alone: Vec<String> = hcalls.iter().map(|c| on_new_thread(vec![c.clone()]).pop().unwrap_or_default()).collect();
+    let fwd = on_new_thread(hcalls.clone());
+    let mut rc = hcalls.clone();
+    rc.reverse();
+    let mut rev = on_new_thread(rc);
+    rev.reverse();
+    if fwd.len() == alone.len() && rev.len() == alone.len() {
+      for i in 0..alone.len() {
+        ctx.count("calls_compared_across_histories");
+        if alone[i].starts_with("Invalid") {
+          ctx.count("history_rejecting_calls");
+        }
+        if fwd[i] != alone[i] || rev[i] != alone[i] {
+          let order = if fwd[i] != alone[i] { "forward" } else { "reverse" };
+          let hist: Vec<String> = hcalls.iter().map(|c| format!("{} <- {}", c.schema.trim_end(), c.json.as_deref().map(|j| j.to_string()).unwrap_or_else(|| format!("h'{}'", c.cbor.as_ref().map(|b| dv::hex(b)).unwrap_or_default())))).collect();
+          ctx.report(&format!("nondeterministic:history-dependent:{}", if hcalls[i].json.is_some() { "json" } else { "cbor" }), json!({"schema": *hcalls[i].schema, "json": hcalls[i].json.as_deref(), "cbor_hex": hcalls[i].cbor.as_ref().map(|b| dv::hex(b)), "alone_on_a_new_thread": alone[i], "after_the_sibling_calls": if order == "forward" { &fwd[i] } else { &rev[i] }, "order": order, "index": i, "calls_in_order": hist}));
+          break;
+        }
+      }
+    }
   }
   // error kinds
   if idx % 4 == 0 {
